@@ -620,3 +620,43 @@ def grammar : NumKind → Grammar
 
 
 end KV.FilePiece
+
+namespace KV.FilePiece
+
+/-! ### util::stream::LineInput::Run (util/stream/line_input.cc)
+Fills blocks of `B` bytes from a `ReadCompressed`, cuts each full block after its last newline and carries the
+rest over to the next block; the last block (at EOF) is handed out as it is. -/
+
+/-- `while (to != end) { got = reader.Read(to, end - to); if (!got) EOF; to += got; }` : (bytes read, reader, hit EOF) -/
+def liFill (orc : Nat → Nat) : Nat → Chain → Nat → Nat → List Byte × Chain × Bool
+  | 0, ch, _, _ => ([], ch, false)
+  | f + 1, ch, i, need =>
+    if need = 0 then ([], ch, false)
+    else match rcRead orc ch i need with
+      | ([], ch') => ([], ch', true)
+      | (b :: bs, ch') =>
+        let r := liFill orc f ch' (i + (bs.length + 1)) (need - (bs.length + 1))
+        (b :: bs ++ r.1, r.2.1, r.2.2)
+
+/-- index of the last newline + 1, or 0 -/
+def lastNl1 (l : List Byte) : Nat := lastIdx1 (· == 10) l
+
+inductive LiErr | noNewline | fuel
+  deriving DecidableEq, Repr
+
+/-- the blocks (valid bytes) `LineInput::Run` passes down the chain -/
+def liRun (orc : Nat → Nat) (B : Nat) : Nat → Chain → Nat → List Byte → Except LiErr (List (List Byte))
+  | 0, _, _, _ => .error .fuel
+  | f + 1, ch, i, carry =>
+    let r := liFill orc (B + 1) ch i (B - carry.length)
+    let buf := carry ++ r.1
+    if r.2.2 then .ok [buf]                       -- EOF: SetValidSize(to - begin); poison
+    else match lastNl1 buf with
+      | 0 => .error .noNewline                    -- "Did not find a newline in … bytes of input"
+      | k + 1 =>
+        match liRun orc B f r.2.1 (i + r.1.length) (buf.drop (k + 1)) with
+        | .ok bl => .ok (buf.take (k + 1) :: bl)
+        | .error e => .error e
+
+
+end KV.FilePiece
